@@ -1317,6 +1317,7 @@ package bkl
 //
 //@ func file.insideRoot(f, paths) (res)
 //@   property C18, C03
+//@   effects probe:filepath.EvalSymlinks
 //@   uses sappNil, ssnocApp
 //@   ensures (= res (Slice (visL (file.root f) (sitems paths))))                                                                             [C18] [C03]
 //@   loop 1
